@@ -224,16 +224,10 @@ Inductive lact :=
 | LClose (evs : list event)                              (* section close: doneloop *)
 | LNext (evs : list event).                              (* option: next line *)
 
-Definition line_step (buf : list N) (sectionid : N) (parents : list cbd) : lact :=
-      if (hd0 buf =? 0) || (hd0 buf =? 35) then LSkip else
+(* a tokenized line: close-mismatch check, option lookup, checks, callback *)
+Definition line_act (otype : N) (argv : list (list N)) (sectionid : N) (parents : list cbd) : lact :=
       let level := match parents with p :: _ => (c_level p + 1) mod 256 | [] => 0 end in
       let sections := match parents with p :: _ => N.lor (c_sections p) sectionid | [] => sectionid end in
-      match classify buf with
-      | None => LFail (EBracket buf) []
-      | Some (otype, sp) =>
-        match aconf_tokenize sp with
-        | TokErr => LFail EQuote []
-        | TokOk argv =>
           let a0 := hd [] argv in
           let isclose := otype =? QAC_OTYPE_SECTIONCLOSE in
           if isclose && (match parents with [] => true | p :: _ => negb (cmpf a0 (argv0 p)) end)
@@ -279,9 +273,18 @@ Definition line_step (buf : list N) (sectionid : N) (parents : list cbd) : lact 
                 LOpen evs {| c_otype := otype; c_section := sectionid; c_sections := sections; c_level := level; c_argv := argv' |} nsid
               else if isclose then LClose evs
               else LNext evs
-          end
-        end
-      end.
+          end.
+
+Definition line_step (buf : list N) (sectionid : N) (parents : list cbd) : lact :=
+  if (hd0 buf =? 0) || (hd0 buf =? 35) then LSkip else
+  match classify buf with
+  | None => LFail (EBracket buf) []
+  | Some (otype, sp) =>
+      match aconf_tokenize sp with
+      | TokErr => LFail EQuote []
+      | TokOk argv => line_act otype argv sectionid parents
+      end
+  end.
 
 (* one call of _parse_inline from the top of its while loop: optcount is the loop-carried local (newsectionid is reset for
    every line) *)
